@@ -6,6 +6,7 @@ import flowpaths.abstractpathmodeldag as pathmodel
 import flowpaths.utils.safetyflowdecomp as sfd
 import flowpaths.utils as utils
 import flowpaths.nodeexpandeddigraph as nedg
+import numbers
 
 class kFlowDecomp(pathmodel.AbstractPathModelDAG):
     # storing some defaults
@@ -173,7 +174,7 @@ class kFlowDecomp(pathmodel.AbstractPathModelDAG):
             )
         )
 
-        if k <= 0 or not isinstance(k, int):
+        if k <= 0 or not isinstance(k, numbers.Integral):
             utils.logger.error(f"{__name__}: k must be a positive integer, not {k}")
             raise ValueError(f"k must be a positive integer, not {k}")
         self.k = k
